@@ -335,6 +335,8 @@ def clean_up_paren_token(
         allow_semicolon=token.token_type == TokenType.PAREN_SQUARE,
     )
     string = ""
+    if not tokenizer.programs:
+        return open_ + close
     if open_ == "{" and tokenizer.programs[0][0].token_type == TokenType.STRING:
         is_nbt = False
 
